@@ -24,7 +24,7 @@ fn run_case(line: &str, out: &mut String) {
         "get" | "view" | "axisiter" | "indices" | "sum" | "getaxis" => arrays::run(&toks, out),
         "fold" | "marg" | "project" | "pmf" | "binom" => spectrum::run(&toks, out),
         "npyw" | "npyr" | "textw" | "read" | "fmt" | "parse" => bytesio::run(&toks, out),
-        "classify" | "sites" => create::run(&toks, out),
+        "classify" | "sites" | "smapfile" => create::run(&toks, out),
         "vcf2bcf" => convert::run(&toks, out),
         "cnpy" | "cgeno" | "cwrite" => chunked::run(&toks, out),
         other => out.push_str(&format!("UNKNOWN-OP {other}")),
